@@ -1021,3 +1021,6 @@ func AtomCallsUnexportedHelper(atom string) bool {
 	h := Followable(cc, nil)
 	return h != nil && !exportedFunc(h)
 }
+
+// LastIf is the exported form of lastIf.
+func LastIf(b *ssa.BasicBlock) (*ssa.If, bool) { return lastIf(b) }
